@@ -392,7 +392,15 @@ func ruleStop(c *Ctx) {
 			}
 			return nil
 		}
-		sp.Inline = func(t *Tracer, fr *Frame, cl ssa.CallInstruction, f *ssa.Function) bool { return f.Parent() != nil }
+		sp.InlineHelpers = true
+		sp.Inline = func(t *Tracer, fr *Frame, cl ssa.CallInstruction, f *ssa.Function) bool {
+			if f.Parent() != nil {
+				return true
+			}
+			// `go s.closeMQ(done)`: the closing goroutine as a named method
+			_, isGo := cl.(*ssa.Go)
+			return isGo && f.Pkg == fn.Pkg && t.interesting(f, 0)
+		}
 		tr := runTrace(p, fn, sp)
 		bad := ""
 		for _, path := range tr.Paths {
@@ -865,7 +873,6 @@ func ruleTempConn(c *Ctx) {
 	}
 	c.check(bad == "", fnName(fn), "temporary connection disposed and the HTTP handler released exactly once on every exit", p.Pos(fn.Pos()), fmt.Sprintf("%d paths", len(tr.Paths)), bad)
 }
-
 
 // natsRoles resolves the adapter's pending-request bookkeeping by role rather
 // than by name: the map of pending entries, and in its element type the
